@@ -29,7 +29,9 @@ KEYS_STYLED = ["snake_case", "camelCase", "PascalCase", "kebab-case", "with spac
                # a non-printable character together with one outside the BMP (escaping decisions taken per string); the astral
                # letters are of a cased script (Deseret) and NFKC-stable, as the key domain asks
                "eta\xa0\U0001f680x", "total\u200d\U00010400 (net)", "zw\u200bsp\U0001f600ace", "bidi\u200emark\U00010428",
-               "nbsp\xa0only", "astral\U0001f680only"]
+               "nbsp\xa0only", "astral\U0001f680only",
+               # keys that sanitise to the names sqlmodel treats specially
+               "PK", "Pk", "pk.", "ID", "Id", "id-"]
 KEYS_OUT = ["日本語a", "1abc", "0", "9lives", "_private", "__dunder__", "", "-", "日本", "***", " ", "fooBar", "foo_bar", "FooBar",
             "foo-bar", "😀"]
 
@@ -431,6 +433,43 @@ def gen_hidden_union_merge(rng):
     out = {"p": dict(rest, f=fa), "q": [dict(rest, f=fb), dict(rest, f=other), dict(rest)]}
     if rng.random() < 0.3:
         out = {"q": out["q"], "p": out["p"]}
+    return out
+
+
+def gen_nested_containers(rng):
+    """values nested directly in two or more containers (lists of lists, lists of mappings-by-option, mappings of lists)
+    whose inner rows have the same un-simplified shape in every sample: int next to float, nulls, pseudo-type strings,
+    two or three levels down"""
+    row = rng.choice([[1, 2.5], [1, None], ["1", "2.5"], [True, None, 1], ["a", None], [1, "x", 2.5]])
+    depth = rng.choice([2, 2, 3])
+
+    def wrap(v, d):
+        for _ in range(d - 1):
+            v = [v, list(v) if isinstance(v, list) else v]
+        return v
+    out = {"matrix": wrap(list(row), depth), "id": 1}
+    if rng.random() < 0.5:
+        out["grid"] = {"r1": [list(row)], "r2": [list(row), list(row)]}
+    samples = [out, {"matrix": wrap(list(row), depth), "id": 2}]
+    return samples
+
+
+def gen_empty_vs_concrete_merge(rng):
+    """similar nested models whose shared field is a container seen only empty (or holding only nulls) in some of them and
+    a container with concrete elements (or another kind of value) in others: after the merge `Any` must not survive next
+    to the concrete element type"""
+    rest = {"g": 1, "h": "t", "i": 2.5, "j": True}
+    conc = rng.choice([[1], ["b"], [1.5, 2], [{"k": 1}]])
+    variants = [[], [None], conc] if rng.random() < 0.5 else [[], conc, rng.choice(["b", None, 7])]
+    rng.shuffle(variants)
+    out = {"m%d" % i: dict(rest, f=v) for i, v in enumerate(variants)}
+    if rng.random() < 0.5:
+        # one holder is itself a list of objects: its own field is already `List[Optional[Any]]` before the registry merge
+        holders = [[dict(rest, f=[]), dict(rest, f=[None])], dict(rest, f=[]), dict(rest, f=conc)]
+        rng.shuffle(holders)
+        out = {"m%d" % i: h for i, h in enumerate(holders)}
+    if rng.random() < 0.3:
+        out["lst"] = [dict(rest, f=[]), dict(rest)]
     return out
 
 
